@@ -1,6 +1,17 @@
+def _post(ctx):
+    # the grammar-dependent clauses as theorems about the parser-engine interpreter (DESIGN.md 6.21, notes/C12.md):
+    # the 13 grammar graphs are dumped from the built tree and the decidable side condition of
+    # Pem_clean_parse_meta_balanced and of Pem_bracketed_shape are evaluated on each (coq/gen/PemMeta_<d>.v, PemBrk_<d>.v, with
+    # the theorems instantiated for the dialect)
+    import cpem
+    cpem.pem_stage(ctx, dialects=cpem.ALL, with_cases=False, meta_balance=True, bracket_shape=True)
+
+
 CFG = dict(
+    post=_post,
     prop="C12", level="proof", harness="c12",
     props_files=["theories/Props/C12.v"], corr_file="theories/Corr/C12.v", corr_module="Corr.C12",
+    extra_targets=["theories/Corr/Pem.vo", "theories/Pem/Proofs.vo", "theories/Pem/MetaBalProofs.vo", "theories/Pem/BrkShapeProofs.vo"],   # imported by the generated coq/gen/PemGrammar_<d>.v / PemMeta_<d>.v / PemBrk_<d>.v
     groups={"infer": False, "linepos": False, "hull": False, "ps": False, "metapos": False, "tflinepos": False, "tfmarker": False},
     show_fn={"infer": "model_infer", "linepos": "model_linepos", "hull": "model_hull", "ps": "model_ps", "metapos": "model_metapos", "tflinepos": "model_tflinepos", "tfmarker": "model_tfmarker"},
     shard=150,
@@ -18,8 +29,18 @@ CFG = dict(
                "(any fix batch whose new segments carry no marker keeps the invariant), C12_parse_leaves_contiguous (with C01 tiling "
                "and the C02 well-formedness hypothesis), C12_templated_file_line_pos / C12_marker_new_positions (a templated file answers with the "
                "line/col computed from the text the source flag selects; a fresh marker sits at the line/col of its templated start in the "
-               "templated text). The grammar-dependent clauses (brackets match, nodes start/end with code, "
-               "indent balance) are observed directly on every tree and monitored (blocking), not proved.",
+               "templated text). Grammar-dependent clauses, as closed theorems about the Gallina interpreter of the parser engine "
+               "(Pem, DESIGN 6.21; validated against the real parser under C02) with decidable side conditions evaluated by vm_compute on all 13 dumped "
+               "grammar graphs on every run (coq/gen/PemMeta_<d>.v, PemBrk_<d>.v, theorems instantiated per dialect): "
+               "Pem_clean_parse_meta_balanced / Pem_match_net_value (meta_balanced_b g: a consistent table of net Indent/Dedent values per node; for every "
+               "token list without tokens of a valued node kind, regex oracle, fuel and span the inserted metas of a root match without unparsable "
+               "section sum to zero), C12_apply_metas_are_inserts + Pem_clean_parse_tree_meta_balanced (MatchResult::apply creates one meta per insert "
+               "entry, so the File tree root_parse builds balances), both hypotheses shown necessary by vm_compute witnesses "
+               "(Pem_meta_balance_arbitrary_graph_refuted, Pem_meta_balance_token_kind_refuted); Pem_bracketed_shape / Pem_match_bracketed_shape "
+               "(brk_safe_b g, which implies wf_safe_b: every bracketed node of every match has the opening bracket token as its first child and "
+               "the closing bracket token of the same pair of a bracket set at its end), Pem_bracket_shape_arbitrary_graph_refuted. "
+               "Still only observed on every tree (blocking monitors): nodes start/end with code; the transfer of the bracket shape through apply "
+               "to the tree node; conditional metas are checked under the dumped indentation configuration and the two extreme ones (all flags set / none), not under every mixed valuation.",
     level_note="Trusted: Coq kernel; hand-written models tied by sampled correspondence; which segments a fix batch edits is an oracle "
                "(its contract H_edit_pre is monitored on every recorded position_segments call); rule bodies and the reflow engine are not "
                "modelled; columns are byte based as in the code.",
@@ -40,7 +61,8 @@ CFG = dict(
          "dropped bracket bodies put into 21 statement skeletons (expression, list, subquery positions and the free-form bracketed regions "
          "of the grammars) x 13 dialects and into the bracket pairs of corpus files. "
          "non-trivial = newline in raw / >= 3 children / a segment moved / >= 2 metas",
-    assumptions=["the lexer's tokens tile the text (C01); inputs where the token text differs from the input are skipped and counted",
+    assumptions=["Pem balance theorem: no lexer token carries the kind of a named node with a non-zero net Indent/Dedent value (SelectClause; TransformClause in sparksql/databricks) - node kinds the lexers never assign; not monitored",
+                 "the lexer's tokens tile the text (C01); inputs where the token text differs from the input are skipped and counted",
                  "H_WF_root_match of C02 for the parse-side theorem",
                  "H_edit_pre: segments handed to position_segments that still carry a marker are consistent below it (monitored on every recorded call, blocking)",
                  "offsets and columns are bytes (the implementation's unit)",
